@@ -43,8 +43,9 @@ Proof.
   - destruct (loops s h); try discriminate. inv_some. simpl. apply upd_etrans.
     destruct (e_canceled (ent s c)) eqn:EC; [unfold retire; constructor | now constructor].
   - destruct (loops s h); try discriminate. destruct (closed s); [inv_some; now left|].
-    destruct (Nat.eqb ep (epoch s)); [|inv_some; now left].
-    destruct (fail_pending h (tab s) (ent s)) as [t' f'] eqn:EF. inv_some. simpl.
+    destruct (fail_pending h (tab s) (ent s)) as [t' f'] eqn:EF.
+    assert (Es : ent s' = f') by (destruct (Nat.eqb ep (epoch s)); inv_some; reflexivity).
+    rewrite Es.
     destruct (fail_pending_spec _ _ _ _ _ (tab_callers_nodup s I) EF) as (A & B & C).
     destruct (in_dec Nat.eq_dec c0 (map snd (tab s))) as [Hin|Hn]; [|left; apply C; tauto].
     destruct (Nat.eq_dec (e_host (ent s c0)) h) as [E|N]; [|left; apply C; tauto].
@@ -183,16 +184,18 @@ Proof.
 Qed.
 
 (* ---------------------------------------------------------------- failPendingRequests *)
-Lemma fail_pending_total : forall s h ep s', reachable s ->
-  loops s h = LIdle ep -> ep = epoch s -> closed s = false -> step s (StreamFail h) = Some s' ->
+Lemma fail_pending_total : forall s h s', reachable s ->
+  closed s = false -> step s (StreamFail h) = Some s' ->
   (forall i c, In (i, c) (tab s') -> e_host (ent s' c) <> h)
   /\ (forall i c, In (i, c) (tab s) -> e_host (ent s c) = h ->
         e_comp (ent s' c) = [Err EStream] /\ e_st (ent s' c) = Retired /\ ~ In (i, c) (tab s'))
   /\ (forall i c, In (i, c) (tab s) -> e_host (ent s c) <> h -> In (i, c) (tab s') /\ ent s' c = ent s c).
 Proof.
-  intros s h ep s' R HL HE HC H. pose proof (reachable_inv s R) as I. simpl in H.
-  rewrite HL, HC, HE, Nat.eqb_refl in H.
-  destruct (fail_pending h (tab s) (ent s)) as [t' f'] eqn:EF. inv_some. simpl.
+  intros s h s' R HC H. pose proof (reachable_inv s R) as I. simpl in H.
+  destruct (loops s h) eqn:HL; try discriminate. rewrite HC in H.
+  destruct (fail_pending h (tab s) (ent s)) as [t' f'] eqn:EF.
+  assert (Es : ent s' = f' /\ tab s' = t') by (destruct (Nat.eqb ep (epoch s)); inv_some; split; reflexivity).
+  destruct Es as [Es Et]. rewrite Es, Et. clear H.
   pose proof (tab_callers_nodup s I) as NDc.
   destruct (fail_pending_spec _ _ _ _ _ NDc EF) as (A & B & C).
   pose proof (fail_pending_host _ _ _ _ _ NDc EF) as HH.
@@ -209,28 +212,20 @@ Proof.
     rewrite A. apply filter_In. split; auto. simpl. destruct (Nat.eqb_spec (e_host (ent s c)) h); simpl; [congruence | auto].
 Qed.
 
-(* the unconditional form: after ANY StreamFail step of a live client no entry of that stream stays in flight *)
-Definition fail_pending_unconditional : Prop :=
-  forall s h s', reachable s -> closed s = false -> step s (StreamFail h) = Some s' ->
-  forall i c, In (i, c) (tab s') -> e_host (ent s' c) <> h.
-
-(* witness: caller 0 on the direct stream (host 0), caller 1 on a forwarded stream (host 1); the
-   forwarded stream fails first (wins the epoch CAS, epoch becomes 1), then the direct stream fails:
-   its loop still holds epoch 0, loses the CAS and re-creates the stream without failPendingRequests *)
+(* regression witness for the branch as it was before fix a827fda: caller 0 on the direct stream (host 0), caller 1 on
+   a forwarded stream (host 1); the forwarded stream fails first (wins the epoch CAS), then the direct stream fails:
+   its loop holds epoch 0, loses the CAS and -- pre-fix -- re-creates the stream without failPendingRequests *)
 Definition stale_epoch_run : list label :=
   [Submit 0 0; Submit 1 1; Build 0 1; Build 1 2; Store 0; Store 1; StreamFail 1].
 
-Lemma fail_pending_unconditional_refuted : ~ fail_pending_unconditional.
+Lemma prefix_loser_keeps_pending : exists s s', reachable s /\ closed s = false /\
+  streamfail_prefix_loser s 0 = Some s' /\ In (1, 0) (tab s') /\ e_host (ent s' 0) = 0 /\ e_comp (ent s' 0) = [].
 Proof.
-  intros F.
   destruct (run init stale_epoch_run) as [s|] eqn:E; [|vm_compute in E; discriminate].
   assert (R : reachable s) by (exists stale_epoch_run; exact E).
-  destruct (step s (StreamFail 0)) as [s'|] eqn:E'.
-  2:{ vm_compute in E. inversion E; subst. vm_compute in E'. discriminate. }
-  assert (HC : closed s = false) by (vm_compute in E; inversion E; subst; reflexivity).
-  apply (F s 0 s' R HC E' 1 0).
-  - vm_compute in E. inversion E; subst. vm_compute in E'. inversion E'; subst. simpl. now left.
-  - vm_compute in E. inversion E; subst. vm_compute in E'. inversion E'; subst. reflexivity.
+  vm_compute in E. inversion E; subst. clear E.
+  eexists; eexists. split; [exact R|]. split; [reflexivity|]. split; [vm_compute; reflexivity|].
+  simpl. auto.
 Qed.
 
 (* ---------------------------------------------------------------- cancellation *)
